@@ -27,9 +27,11 @@ CONSTANTS
   RichOnly = FALSE
   NeedStruct = TRUE
   MaxRich <- Unlimited
+  NBrkPlaces = 7
+  SplitUnits = FALSE
   NCmtCls = 3
   NCppForms = 4
-  NGarb = 8
+  NGarb = 10
   DirectiveCls <- DirCls
 INVARIANT WellNested
 INVARIANT GrammarInNest
